@@ -81,6 +81,8 @@ Proof.
   rewrite <- names_len_length. rewrite Nat2N.id.
   rewrite firstn_app, Nat.sub_diag, firstn_O, app_nil_r, firstn_all.
   rewrite split_nul_names by exact Hz. rewrite nodupb_true by exact Hnd.
+  replace (length (concat (map w_name names) ++ rest) <? length (concat (map w_name names)))%nat
+    with false by (rewrite app_length; lia).
   rewrite skipn_app, Nat.sub_diag, skipn_O, skipn_all. reflexivity.
 Qed.
 
